@@ -72,7 +72,7 @@ type c07Case struct {
 var profC07Frames = Profile{
 	MaxBars: 8, MinBars: 3, MaxSteps: 30, Refresh: []string{"manual"}, QLens: []int{-1},
 	Pop: 20, Rm: 40, AbortW: 4, TicksW: 10, Ext: 20, Text: 1, Pty: 100, PtyRowsMax: 5,
-	PlainDecors: 1, SyncDecors: 1, Fillers: []string{"bar", "nop", "spinner", "spinnerv"}, LateAdd: true, ChurnW: 2, BuiltinPct: 30, // (the harness's own "tag" filler ignores the width it is given)
+	PlainDecors: 1, SyncDecors: 1, Fillers: []string{"bar", "nop", "spinner", "spinnerv", "bartip"}, LateAdd: true, ChurnW: 2, BuiltinPct: 30, // (the harness's own "tag" filler ignores the width it is given)
 }
 
 func init() {
